@@ -331,13 +331,24 @@ def run(ctx):
     r.idiom("C06.6", "self.tokenizer.stream.charEncoding[0].name" in rets, "documentEncoding", de.where,
             "documentEncoding does not report stream.charEncoding[0].name: %s" % rets,
             wrong=[(bool(rets) and not any("charEncoding" in x for x in rets if x != "None"), None)])
-    rs = repo.func(REL, "HTMLBinaryInputStream.reset")
-    ds = [n for n in ast.walk(rs.node) if isinstance(n, ast.Assign) and attr_chain(n.targets[0]) == ["self", "dataStream"]]
-    r.idiom("C06.6", len(ds) == 1 and norm(ds[0].value).startswith("self.charEncoding[0].codec_info.streamreader(self.rawStream"),
-            "decoder", rs.where, "the decoder is not built from self.charEncoding[0] over rawStream")
+    decoder_rule(ctx, "C06.6")
     meta_rules(ctx)
     prescan_tag_rules(ctx)
     prescan_dispatch_position(ctx)
+
+
+def decoder_rule(ctx, rid):
+    r = ctx.r
+    repo = ctx.repo
+    rs = repo.func(REL, "HTMLBinaryInputStream.reset")
+    ds = [n for n in ast.walk(rs.node) if isinstance(n, ast.Assign) and attr_chain(n.targets[0]) == ["self", "dataStream"]]
+    dtxt = norm(ds[0].value) if len(ds) == 1 else ""
+    r.idiom(rid, len(ds) == 1 and dtxt.startswith("self.charEncoding[0].codec_info.streamreader(self.rawStream"),
+            "decoder", rs.where, "the decoder is not built from self.charEncoding[0] over rawStream",
+            wrong=[("codecs.getreader(" in dtxt or "codecs.lookup(" in dtxt or "codecs.getincrementaldecoder(" in dtxt,
+                    "the decoder is looked up in Python's codec registry by name (`%s`) instead of being taken from the encoding object that "
+                    "the label resolved to: labels the Encoding standard knows but Python does not (windows-874, x-user-defined, "
+                    "iso-8859-8-i, ...) raise LookupError and CJK encodings decode differently from what documentEncoding reports" % dtxt[:70])])
 
 
 def meta_rules(ctx):
